@@ -324,7 +324,7 @@ def run(ctx):
         os.makedirs(os.path.join(base, "doc"))
         with open(os.path.join(base, "doc", "index.gmi"), "w") as f:
             f.write("# hi\n")
-        n = ctx.pick(1200, 40000) // ctx.nshards
+        n = ctx.pick(1200, 400000) // ctx.nshards
         fixed = [
             {"allow": None, "deny": None, "default_allow": False},
             {"allow": None, "deny": None, "default_allow": True},
